@@ -748,6 +748,37 @@ func nil2(r []*ssa.Return) []*ssa.Return { return r }
 
 func (c *Check) leaseGuards(kinds map[string]*recKind) {
 	l := c.L
+	// an open bid implies an open order: the bid record is created only behind a validator of the fetched order that
+	// answers nil exactly for OrderOpen
+	{
+		cb := l.msgServerMethod("x/market/handler", "CreateBid")
+		c.Analysed(fnName(cb))
+		n := 0
+		for _, call := range callsIn(cb, false) {
+			if !callIs(call, "CreateBid", "IKeeper") {
+				continue
+			}
+			n++
+			ok := false
+			for _, a := range factsAt(call.Block()) {
+				if a.Op == "eq" && isNilConst(a.Y) {
+					if cv, _ := callOf(a.X); cv != nil && strings.Contains(Sym(cv), "GetOrder(") {
+						if g := cv.Call.StaticCallee(); g != nil && strings.HasPrefix(g.Name(), "Validate") {
+							rk := kinds[akash+"/x/market/types.Order"]
+							ns := l.validatorNilStates(kinds, rk, g)
+							if len(ns) == 1 && ns[rk.byName["OrderOpen"]] {
+								ok = true
+							}
+						}
+					}
+				}
+			}
+			c.Ob("R3", "CreateBid: a bid is stored only for an order that is open", call.Pos(), ok, "a bid can be stored (open) on an order that is matched or closed: it stays open when that order later closes")
+		}
+		if n == 0 {
+			c.Ob("R3", "CreateBid: a bid is stored only for an order that is open", cb.Pos(), false, "no bid creation found")
+		}
+	}
 	fn := l.msgServerMethod("x/market/handler", "CreateLease")
 	bopen, _ := constantInt2(l, "x/market/types", "BidOpen")
 	oopen, _ := constantInt2(l, "x/market/types", "OrderOpen")
